@@ -33,7 +33,9 @@ EXPLANATION = (
     ' '
     'R-C05.8 precedence of the type-specific over the common attribute defaults in every reader that combines them.'
     ' '
-    'R-C05.9 the facets a diff() reports through one list are tested independently (no reporting site is excluded by the test that admits another).')
+    'R-C05.9 the facets a diff() reports through one list are tested independently (no reporting site is excluded by the test that admits another).'
+    ' '
+    'R-C05.10 (= R-C15.5) get_app_sig resolves the exact app id before the legacy-label alias.')
 NOT_DECIDED = (
     'Closure of diff -> hint -> simulate for all signature pairs (needs '
     'execution of the three functions on generated pairs).')
@@ -1052,7 +1054,13 @@ def r9_difference_facets_independent(ctx):
     ctx.floor('facet reporting sites in the diff methods', n_sites, 5)
 
 
+def r10_exact_lookup_first(ctx):
+    from .c15 import r5_exact_lookup_first
+    r5_exact_lookup_first(ctx, rule_id='R-C05.10')
+
+
 def run(ctx):
+    r10_exact_lookup_first(ctx)
     r9_difference_facets_independent(ctx)
     r8_defaults_precedence(ctx)
     r7_order_preserving_rewrites(ctx)
